@@ -38,10 +38,10 @@ impl<'s> Attribute<'s> for ErrorCode<'s> {
         let head = value.read_u32::<NE>().unwrap();
         let head = ErrorCodeHead(head);
 
-        let reason = if !value.is_empty() {
-            from_utf8(value)?
-        } else {
-            ""
+        // the reason phrase is the only part with a variable length
+        let reason = match attr.get_trimmed_value(msg.buffer()).get(4..) {
+            Some(reason) if !reason.is_empty() => from_utf8(reason)?,
+            _ => "",
         };
 
         Ok(Self {
